@@ -24,7 +24,8 @@
      issued : [rid, chan, data]                 requests handed to the updater (the issue point)
      wire   : [chan, data, nans]                port-2 packets the device received; nans = number of
                                                 answers the device had emitted before
-     down   : [kind "ans"|"ntf", chan, data, w] packets the device emitted (w = wire index answered)
+     down   : [kind "ans"|"ntf"|"dup", chan, data, w] packets the device / link emitted (w = wire index answered;
+                                                "dup" = a second copy of the answer to request w, delivered later)
      rxs    : [chan, data, upds, cbs]           packets the library dispatched, with what was invoked
               upds : [cb, p, arg, cache, get]   update callback cb called for parameter p
               cbs  : [rid, pay]                 one-shot reply callback of request rid called
@@ -196,8 +197,10 @@ RxClause(cfg, k, r, down, issued, calls) ==
                    ELSE [rid |-> 0, k |-> "none", p |-> 0]
              wantCb == isAns /\ IsMisc(rc.k)
          IN
+         \* a second copy of an answer that was already delivered: to nobody, nothing again
+         IF d.kind = "dup" THEN (IF r.upds # <<>> \/ r.cbs # <<>> THEN "DuplicateDelivered" ELSE "ok")
          \* update callbacks: only for the parameter and value this packet carries
-         IF \E i \in DOMAIN r.upds : ~vb \/ r.upds[i].p # p \/ ~Applies(cfg, CbById(cfg, r.upds[i].cb), p)
+         ELSE IF \E i \in DOMAIN r.upds : ~vb \/ r.upds[i].p # p \/ ~Applies(cfg, CbById(cfg, r.upds[i].cb), p)
          THEN "SpuriousUpdate"
          ELSE IF \E i \in DOMAIN r.upds : ~SameTyped(cfg.type[p], r.upds[i].arg, x) THEN "UpdateValue"
          ELSE IF isAns /\ vb /\ \E i \in DOMAIN cfg.updcbs :
@@ -223,7 +226,7 @@ LastAnswerFor(cfg, down, p, n) ==
     ELSE LastAnswerFor(cfg, down, p, n - 1)
 FreshClause(cfg, p, val, down, n) ==       \* n = packets dispatched so far
     LET j == LastAnswerFor(cfg, down, p, n)
-        cands == {m \in (IF j = 0 THEN 1 ELSE j)..n : ValueBearing(down[m]) /\ ValueParam(down[m]) = p}
+        cands == {m \in (IF j = 0 THEN 1 ELSE j)..n : down[m].kind # "dup" /\ ValueBearing(down[m]) /\ ValueParam(down[m]) = p}
     IN IF (j = 0 /\ SameTyped(cfg.type[p], val, cfg.init[p]))
           \/ \E m \in cands : SameTyped(cfg.type[p], val, ValueBytes(down[m]))
        THEN "ok" ELSE "StaleValue"
